@@ -79,7 +79,7 @@ PROPS = {
         apalache=TLV_CURSOR_APALACHE,
         gens=dict(
             quick=V1_QUICK + g('stream', v2good=60, v2corrupt=60, v2ctrl=300, v2len=120, mixed=60) + TLV_QUICK
-            + g('stream', bigtrail=3, huge=2) + g('builder', bseq=60, rebuild=30, bwire=20) + g('writer', wvals=60, wints=1, wbig=1, wpersist=10, wraw=6) + g('format', fmtshapes=60, fmtrand=60)
+            + g('stream', bigtrail=3, huge=2, pipe=20) + g('builder', bseq=60, rebuild=30, bwire=20) + g('writer', wvals=60, wints=1, wbig=1, wpersist=10, wraw=6) + g('format', fmtshapes=60, fmtrand=60)
             + g('convert', cvrand=66),
             thorough=V1_THOROUGH + V2_THOROUGH + TLV_THOROUGH + g('builder', bseq=3000, rebuild=1000, bwire=500)
             + g('writer', wvals=3000, wints=20, wtlv=2) + g('format', fmtshapes=6561, fmtrand=5000) + g('convert', cvrand=2200)),
@@ -89,8 +89,8 @@ PROPS = {
              'non-trivial = a call into the crate on a non-empty input; distinct = distinct inputs',
     ),
     'C04': dict(
-        gens=dict(quick=g('stream', v1good=200, v1struct=60, v1len=40, v1max=20, v2good=150, v2len=40, mixed=80, bigtrail=6, huge=6),
-                  thorough=g('stream', v1good=5000, v1struct=2000, v1len=600, v1max=400, v2good=4000, v2len=2000, mixed=2500, bigtrail=60, huge=80)),
+        gens=dict(quick=g('stream', v1good=200, v1struct=60, v1len=40, v1max=20, v2good=150, v2len=40, mixed=80, bigtrail=6, huge=6, pipe=60),
+                  thorough=g('stream', v1good=5000, v1struct=2000, v1len=600, v1max=400, v2good=4000, v2len=2000, mixed=2500, bigtrail=60, huge=80, pipe=2000)),
         models=[MC_V1, MC_V2, MC_MIXED],
         rule='stream sessions whose header is followed by trailers (application bytes, another header, CR/LF/NUL, a '
              'digit, a TLV); non-trivial = an event after the first accept in the session, or the re-parse of the '
@@ -104,8 +104,8 @@ PROPS = {
              'first accept of a session that visited at least one proper prefix of that header; distinct = distinct headers+splits',
     ),
     'C06': dict(
-        gens=dict(quick=g('stream', mixed=200, v1good=80, v1len=40, v1struct=40, v1mutate=100, v2mutate=150, v2good=80, v2corrupt=60, v1junk=60, bytes=60, huge=4),
-                  thorough=g('stream', mixed=6000, v1good=2000, v1len=600, v1struct=1500, v1mutate=4000, v2mutate=4000, v2good=2000, v2corrupt=2000, v1junk=2000, bytes=2000, huge=40)),
+        gens=dict(quick=g('stream', mixed=200, v1good=80, v1len=40, v1struct=40, v1mutate=100, v2mutate=150, v2good=80, v2corrupt=60, v1junk=60, bytes=60, huge=4, pipe=30),
+                  thorough=g('stream', mixed=6000, v1good=2000, v1len=600, v1struct=1500, v1mutate=4000, v2mutate=4000, v2good=2000, v2corrupt=2000, v1junk=2000, bytes=2000, huge=40, pipe=1000)),
         models=[MC_MIXED, MC_V1, MC_V2],
         rule='every stream event (the three verdicts on the same buffer); non-trivial = non-empty buffer',
     ),
